@@ -1,5 +1,5 @@
 (* C04 — the enumerated valid design vectors are exactly the architectures. *)
-From DSG Require Import Base Dsg Sel SelP DesVar Problem ProblemP.
+From DSG Require Import Base Dsg Sel SelP DesVar Problem ProblemP RowsP.
 
 (* a vector is listed iff it is the vector of an admissible assignment with in-domain design-variable values *)
 Theorem C04_rows_exact : forall g E rows, rows_of g E = Some rows ->
@@ -20,6 +20,12 @@ Print Assumptions C04_rows_complete.
 Theorem C04_assignments_once : forall g l, opts_nodup g -> enum_adm g = Some l -> ForallOrdPairs (fun a b => ~ same a b) l.
 Proof. exact enum_adm_distinct. Qed.
 Print Assumptions C04_assignments_once.
+
+(* one each: under a faithful encoding (distinct admissible assignments get distinct selection vectors -- decided by the
+   extracted enc_ok on every case) no vector is listed twice *)
+Theorem C04_rows_once : forall g E rows, enc_ok g E = Some true -> rows_of g E = Some rows -> NoDup rows.
+Proof. exact rows_of_NoDup. Qed.
+Print Assumptions C04_rows_once.
 
 Theorem C04_n_valid : forall g E rows, rows_of g E = Some rows -> n_valid g E = Some (N.of_nat (length rows)).
 Proof. exact n_valid_is_length. Qed.
